@@ -369,10 +369,41 @@ class Source:
         walk(f.node)
         return out
 
+    def field_types(self, c: Class) -> dict:
+        """'self.<field>' -> class qname, from the annotated fields of c (and its bases)"""
+        out = {}
+        for b in self.class_bases(c):
+            out.update(self.field_types(b))
+        for st in c.node.body:
+            if isinstance(st, ast.AnnAssign) and isinstance(st.target, ast.Name):
+                ann = st.annotation
+                if isinstance(ann, ast.Subscript):  # Inventory[Evolution], Optional[EKO]
+                    base = self.dotted(ann.value)
+                    if base in ("Optional", "typing.Optional"):
+                        ann = ann.slice
+                    else:
+                        ann = ann.value
+                d = self.dotted(ann)
+                if d:
+                    q = self.resolve_name(c.module, d)
+                    if q in self.classes:
+                        out[f"self.{st.target.id}"] = q
+        return out
+
     def callgraph(self, local_types_for=None):
         """edges: caller qname -> set of callee qnames (repo functions; classes map to __init__/__post_init__)."""
         edges: dict[str, set[str]] = {}
         unresolved: dict[str, list[str]] = {}
+        if local_types_for is None:
+            cache: dict = {}
+
+            def local_types_for(f):
+                c = f.cls or (f.parent.cls if f.parent else None)
+                if c is None:
+                    return None
+                if c.qname not in cache:
+                    cache[c.qname] = self.field_types(c)
+                return cache[c.qname]
         for q, f in self.funcs.items():
             es = edges.setdefault(q, set())
             lt = local_types_for(f) if local_types_for else None
